@@ -39,10 +39,10 @@ theorem evictLoop_within (m : Nat) (cs : List Nat) (cnt : Nat) (q : Pool) (ps : 
   | nil => rfl
   | cons c cs => unfold evictLoop; simp [Nat.not_lt.mpr h]
 
-/-- `add_entry` never invents or alters an entry: the pool afterwards consists of old entries and the new one -/
-theorem addEntry_mem (m : Nat) (pref : List Nat) (q : Pool) (e : PEnt) {e' : PEnt}
-    (h : e' ∈ (addEntry m pref q e).1) : e' ∈ q ∨ e' = e := by
-  unfold addEntry at h
+/-- `add_entry` (for every choice of candidates) never invents or alters an entry -/
+theorem addEntryWith_mem (cands : Pool → PEnt → List Nat) (m : Nat) (pref : List Nat) (q : Pool) (e : PEnt) {e' : PEnt}
+    (h : e' ∈ (addEntryWith cands m pref q e).1) : e' ∈ q ∨ e' = e := by
+  unfold addEntryWith at h
   split at h
   · exact Or.inl h
   · simp only at h
@@ -58,26 +58,54 @@ theorem addEntry_mem (m : Nat) (pref : List Nat) (q : Pool) (e : PEnt) {e' : PEn
         · exact Or.inl (mem_of_mem_evictLoop _ _ _ _ _ h)
       · exact Or.inl h
 
+/-- `add_entry` never invents or alters an entry: the pool afterwards consists of old entries and the new one -/
+theorem addEntry_mem (m : Nat) (pref : List Nat) (q : Pool) (e : PEnt) {e' : PEnt}
+    (h : e' ∈ (addEntry m pref q e).1) : e' ∈ q ∨ e' = e := addEntryWith_mem _ m pref q e h
+
 /-- within `max_ancestors_count` the entry is inserted and nothing else changes -/
-theorem addEntry_within_limit (m : Nat) (pref : List Nat) (q : Pool) (e : PEnt) (hid : hasId q e.id = false)
-    (h : (ancestorsOf q (linkParentsE q e)).length + 1 ≤ m) : addEntry m pref q e = (q ++ [e], true) := by
-  unfold addEntry
+theorem addEntryWith_within_limit (cands : Pool → PEnt → List Nat) (m : Nat) (pref : List Nat) (q : Pool) (e : PEnt)
+    (hid : hasId q e.id = false) (h : (ancestorsOf q (linkParentsE q e)).length + 1 ≤ m) :
+    addEntryWith cands m pref q e = (q ++ [e], true) := by
+  unfold addEntryWith
   simp [hid, h]
 
-/-- over the limit without a cell-ref parent: `ExceededMaximumAncestorsCount`, the pool is unchanged -/
-theorem addEntry_over_limit_no_cell_ref (m : Nat) (pref : List Nat) (q : Pool) (e : PEnt)
-    (h : m < (ancestorsOf q (linkParentsE q e)).length + 1) (hc : cellRefParents q e = []) :
-    addEntry m pref q e = (q, false) := by
-  unfold addEntry
+theorem addEntry_within_limit (m : Nat) (pref : List Nat) (q : Pool) (e : PEnt) (hid : hasId q e.id = false)
+    (h : (ancestorsOf q (linkParentsE q e)).length + 1 ≤ m) : addEntry m pref q e = (q ++ [e], true) :=
+  addEntryWith_within_limit _ m pref q e hid h
+
+/-- over the limit without a candidate: `ExceededMaximumAncestorsCount`, the pool is unchanged -/
+theorem addEntryWith_over_limit_no_cand (cands : Pool → PEnt → List Nat) (m : Nat) (pref : List Nat) (q : Pool) (e : PEnt)
+    (h : m < (ancestorsOf q (linkParentsE q e)).length + 1) (hc : cands q e = []) :
+    addEntryWith cands m pref q e = (q, false) := by
+  unfold addEntryWith
   split
   · rfl
   · simp only [hc, List.length_nil, Nat.sub_zero]
     simp [Nat.not_le.mpr h]
 
+/-- no cell-ref parent at all: no evictable one -/
+theorem evictableParents_nil_of_cellRefParents_nil {q : Pool} {e : PEnt} (hc : cellRefParents q e = []) :
+    evictableParents q e = [] := by
+  unfold evictableParents; rw [hc]; rfl
+
+/-- over the limit without an EVICTABLE cell-ref parent (none, or only needed ones): refusal, the pool is unchanged -/
+theorem addEntry_over_limit_no_evictable (m : Nat) (pref : List Nat) (q : Pool) (e : PEnt)
+    (h : m < (ancestorsOf q (linkParentsE q e)).length + 1) (hc : evictableParents q e = []) :
+    addEntry m pref q e = (q, false) := addEntryWith_over_limit_no_cand _ m pref q e h hc
+
+/-- over the limit without a cell-ref parent: `ExceededMaximumAncestorsCount`, the pool is unchanged -/
+theorem addEntry_over_limit_no_cell_ref (m : Nat) (pref : List Nat) (q : Pool) (e : PEnt)
+    (h : m < (ancestorsOf q (linkParentsE q e)).length + 1) (hc : cellRefParents q e = []) :
+    addEntry m pref q e = (q, false) :=
+  addEntry_over_limit_no_evictable m pref q e h (evictableParents_nil_of_cellRefParents_nil hc)
+
 /-- a pooled id is never inserted twice -/
+theorem addEntryWith_pooled (cands : Pool → PEnt → List Nat) (m : Nat) (pref : List Nat) (q : Pool) (e : PEnt)
+    (hid : hasId q e.id = true) : addEntryWith cands m pref q e = (q, false) := by
+  unfold addEntryWith; simp [hid]
+
 theorem addEntry_pooled (m : Nat) (pref : List Nat) (q : Pool) (e : PEnt) (hid : hasId q e.id = true) :
-    addEntry m pref q e = (q, false) := by
-  unfold addEntry; simp [hid]
+    addEntry m pref q e = (q, false) := addEntryWith_pooled _ m pref q e hid
 
 /-- whatever `add_entry` does, the entry is only inserted under an id that was not pooled -/
 theorem addEntry_inserted_fresh (m : Nat) (pref : List Nat) (q : Pool) (e : PEnt)
@@ -86,10 +114,209 @@ theorem addEntry_inserted_fresh (m : Nat) (pref : List Nat) (q : Pool) (e : PEnt
   | false => rfl
   | true => rw [addEntry_pooled m pref q e hid] at h; cases h
 
+/-! ### /repo 10e306f: a needed parent is never evicted for the entry that needs it -/
+
+/-- the remaining parents after the loop: the parents minus the candidates that were processed; a parent that
+    is not a candidate stays -/
+theorem evictLoop_keeps_parent (m : Nat) (cs : List Nat) (cnt : Nat) (q : Pool) (ps : List Nat) (x : Nat)
+    (hx : x ∈ ps) (hc : x ∉ cs) : x ∈ (evictLoop m cs cnt q ps).2.1 := by
+  induction cs generalizing cnt q ps with
+  | nil => exact hx
+  | cons c cs ih =>
+    unfold evictLoop
+    split
+    · apply ih
+      · have hne : x ≠ c := fun h => hc (by rw [h]; exact List.mem_cons_self ..)
+        exact List.mem_filter.mpr ⟨hx, by simpa using hne⟩
+      · exact fun h => hc (List.mem_cons_of_mem _ h)
+    · exact hx
+
+theorem mem_evictOrder {pref cands : List Nat} {c : Nat} (h : c ∈ evictOrder pref cands) : c ∈ cands := by
+  unfold evictOrder at h
+  rcases List.mem_append.mp h with h | h
+  · simpa using (List.mem_filter.mp h).2
+  · exact (List.mem_filter.mp h).1
+
+theorem neededId_not_evictable {q : Pool} {e : PEnt} {id : Nat} (h : id ∈ neededIds q e) : id ∉ evictableParents q e := by
+  unfold evictableParents
+  intro hm
+  have := (List.mem_filter.mp hm).2
+  simp [h] at this
+
+theorem neededIds_sub_linkParents {q : Pool} {e : PEnt} {id : Nat} (h : id ∈ neededIds q e) : id ∈ linkParentsE q e := by
+  unfold neededIds at h
+  unfold linkParentsE
+  obtain ⟨x, hx, rfl⟩ := List.mem_map.mp h
+  obtain ⟨hxq, hn⟩ := List.mem_filter.mp hx
+  refine List.mem_map.mpr ⟨x, List.mem_filter.mpr ⟨hxq, ?_⟩, rfl⟩
+  unfold neededParent at hn
+  unfold refs
+  simp only [Bool.or_eq_true] at hn ⊢
+  rcases hn with hn | hn
+  · exact Or.inl (Or.inl hn)
+  · exact Or.inl (Or.inr hn)
+
+/-- THE REPAIR: when `add_entry` inserts the entry, every pooled transaction that created one of its inputs or
+    cell deps is still pooled (by id) — for every pool, limit and evict-key order -/
+theorem addEntry_inserted_keeps_needed (m : Nat) (pref : List Nat) (q : Pool) (e : PEnt)
+    (h : (addEntry m pref q e).2 = true) (id : Nat) (hid : id ∈ neededIds q e) : hasId (addEntry m pref q e).1 id = true := by
+  have hq : hasId q id = true := by
+    unfold neededIds at hid
+    obtain ⟨x, hx, rfl⟩ := List.mem_map.mp hid
+    unfold hasId
+    exact List.any_eq_true.mpr ⟨x, (List.mem_filter.mp hx).1, by simp⟩
+  have happ : ∀ r : Pool, hasId r id = true → hasId (r ++ [e]) id = true := by
+    intro r hr; unfold hasId at hr ⊢; rw [List.any_append, hr]; rfl
+  unfold addEntry addEntryWith at h ⊢
+  split at h
+  · cases h
+  · rename_i hfresh
+    simp only [hfresh, Bool.false_eq_true, if_false] at h ⊢
+    split at h
+    · rename_i hle; simp only [hle, if_true]; exact happ q hq
+    · rename_i hle
+      simp only [hle, if_false] at h ⊢
+      split at h
+      · rename_i hroom
+        simp only [hroom, if_true] at h ⊢
+        split at h
+        · rename_i hall
+          simp only [hall, if_true]
+          apply happ
+          have hkeep := evictLoop_keeps_parent m (evictOrder pref (evictableParents q e))
+            ((ancestorsOf q (linkParentsE q e)).length + 1) q (linkParentsE q e) id
+            (neededIds_sub_linkParents hid) (fun hc => neededId_not_evictable hid (mem_evictOrder hc))
+          exact List.all_eq_true.mp hall id hkeep
+        · cases h
+      · cases h
+
+/-! ### InputsResolvable is kept by `add_entry` (needs /repo 10e306f) -/
+
+/-- the id determines the outputs (`PoolMap.entries` is keyed by id, and the id is a hash of the transaction) -/
+def UniqueIds (q : Pool) : Prop := ∀ x ∈ q, ∀ y ∈ q, x.id = y.id → x.outs = y.outs
+
+theorem resolvable_evictLoop {P : Nat → Prop} (m : Nat) (cs : List Nat) (cnt : Nat) (q : Pool) (ps : List Nat)
+    (h : Resolvable P q) : Resolvable P (evictLoop m cs cnt q ps).1 := by
+  induction cs generalizing cnt q ps with
+  | nil => exact h
+  | cons c cs ih =>
+    unfold evictLoop
+    split
+    · exact ih _ _ _ (resolvable_removeWithDesc c h)
+    · exact h
+
+/-- the two outcomes of `add_entry`: refused with the pool `r`, or inserted behind `r`, where `r` is the pool
+    after the evictions (`r = q` when the loop was not entered) -/
+theorem addEntryWith_shape (cands : Pool → PEnt → List Nat) (m : Nat) (pref : List Nat) (q : Pool) (e : PEnt) :
+    ∃ cs cnt ps, addEntryWith cands m pref q e = ((evictLoop m cs cnt q ps).1, false) ∨
+      addEntryWith cands m pref q e = ((evictLoop m cs cnt q ps).1 ++ [e], true) := by
+  unfold addEntryWith
+  split
+  · exact ⟨[], 0, [], Or.inl rfl⟩
+  · simp only
+    split
+    · exact ⟨[], 0, [], Or.inr rfl⟩
+    · split
+      · split
+        · exact ⟨_, _, _, Or.inr rfl⟩
+        · exact ⟨_, _, _, Or.inl rfl⟩
+      · exact ⟨[], 0, [], Or.inl rfl⟩
+
+theorem uniqueIds_addEntry (m : Nat) (pref : List Nat) (q : Pool) (e : PEnt) (hu : UniqueIds q) :
+    UniqueIds (addEntry m pref q e).1 := by
+  obtain ⟨cs, cnt, ps, hs | hs⟩ := addEntryWith_shape evictableParents m pref q e
+  · unfold addEntry; rw [hs]
+    intro x hx y hy hid
+    exact hu x (mem_of_mem_evictLoop _ _ _ _ _ hx) y (mem_of_mem_evictLoop _ _ _ _ _ hy) hid
+  · have hfresh : hasId q e.id = false := addEntry_inserted_fresh m pref q e (by unfold addEntry; rw [hs])
+    have hno : ∀ x ∈ (evictLoop m cs cnt q ps).1, x.id ≠ e.id := by
+      intro x hx hid
+      have : hasId q e.id = true := hasId_iff.mpr ⟨x, mem_of_mem_evictLoop _ _ _ _ _ hx, hid⟩
+      rw [hfresh] at this; cases this
+    have hfst : (addEntry m pref q e).1 = (evictLoop m cs cnt q ps).1 ++ [e] := by unfold addEntry; rw [hs]
+    rw [hfst]
+    intro x hx y hy hid
+    rcases List.mem_append.mp hx with hx1 | hx1
+    · rcases List.mem_append.mp hy with hy1 | hy1
+      · exact hu x (mem_of_mem_evictLoop _ _ _ _ _ hx1) y (mem_of_mem_evictLoop _ _ _ _ _ hy1) hid
+      · rw [List.mem_singleton] at hy1; rw [hy1] at hid; exact absurd hid (hno x hx1)
+    · rcases List.mem_append.mp hy with hy1 | hy1
+      · rw [List.mem_singleton] at hx1; rw [hx1] at hid; exact absurd hid.symm (hno y hy1)
+      · rw [List.mem_singleton] at hx1 hy1; rw [hx1, hy1]
+
+/-- `add_entry` keeps "every input and cell dep is `P` or created by a pooled entry": the evictions take
+    descendants along, and (since /repo 10e306f) the creators of the new entry's own inputs are never evicted -/
+theorem resolvable_addEntry {P : Nat → Prop} (m : Nat) (pref : List Nat) (q : Pool) (e : PEnt) (hu : UniqueIds q)
+    (hr : Resolvable P q) (he : ∀ o ∈ e.spent ++ e.deps, P o ∨ ∃ x ∈ q, o ∈ x.outs) :
+    Resolvable P (addEntry m pref q e).1 := by
+  obtain ⟨cs, cnt, ps, hs | hs⟩ := addEntryWith_shape evictableParents m pref q e
+  · unfold addEntry; rw [hs]; exact resolvable_evictLoop _ _ _ _ _ hr
+  · have hsucc : (addEntry m pref q e).2 = true := by unfold addEntry; rw [hs]
+    have hfst : (addEntry m pref q e).1 = (evictLoop m cs cnt q ps).1 ++ [e] := by unfold addEntry; rw [hs]
+    have hfresh : hasId q e.id = false := addEntry_inserted_fresh m pref q e hsucc
+    rw [hfst]
+    intro e' he' o ho
+    rcases List.mem_append.mp he' with h1 | h1
+    · rcases resolvable_evictLoop m cs cnt q ps hr e' h1 o ho with h | ⟨x, hx, hox⟩
+      · exact Or.inl h
+      · exact Or.inr ⟨x, List.mem_append.mpr (Or.inl hx), hox⟩
+    · rw [List.mem_singleton] at h1; subst h1
+      rcases he o ho with h | ⟨x, hx, hox⟩
+      · exact Or.inl h
+      · have hneed : x.id ∈ neededIds q e' := by
+          unfold neededIds
+          refine List.mem_map.mpr ⟨x, List.mem_filter.mpr ⟨hx, ?_⟩, rfl⟩
+          unfold neededParent
+          rcases List.mem_append.mp ho with h | h
+          · have : e'.spent.any x.outs.contains = true := List.any_eq_true.mpr ⟨o, h, by simpa using hox⟩
+            simp [this]
+          · have : e'.deps.any x.outs.contains = true := List.any_eq_true.mpr ⟨o, h, by simpa using hox⟩
+            simp [this]
+        have hk := addEntry_inserted_keeps_needed m pref q e' hsucc x.id hneed
+        rw [hfst] at hk
+        obtain ⟨x', hx', hid'⟩ := hasId_iff.mp hk
+        rcases List.mem_append.mp hx' with h2 | h2
+        · have : x'.outs = x.outs := hu x' (mem_of_mem_evictLoop _ _ _ _ _ h2) x hx hid'
+          exact Or.inr ⟨x', hx', this ▸ hox⟩
+        · rw [List.mem_singleton] at h2; subst h2
+          have : hasId q x'.id = true := hasId_iff.mpr ⟨x, hx, hid'.symm⟩
+          rw [hfresh] at this; cases this
+
+theorem resolvable_readdOneR {P : Nat → Prop} {a : Args} {live : List Nat} {q : Pool} (t : CTx)
+    (hP : ∀ o ∈ live, P o) (hu : UniqueIds q) (hr : Resolvable P q) :
+    Resolvable P (readdOneR a live q t) ∧ UniqueIds (readdOneR a live q t) := by
+  unfold readdOneR
+  split
+  · rename_i hres
+    simp only [Bool.and_eq_true] at hres
+    refine ⟨resolvable_addEntry _ _ q (entryOf a t) hu hr ?_, uniqueIds_addEntry _ _ q _ hu⟩
+    intro o ho
+    obtain ⟨_, h2⟩ := cellLive_cases (resolves_cells hres.1 o ho)
+    rcases h2 with h2 | h2
+    · exact Or.inr h2
+    · exact Or.inl (hP o h2)
+  · exact ⟨hr, hu⟩
+
+theorem resolvable_readdR {P : Nat → Prop} (a : Args) (live : List Nat) (l : List CTx) (q : Pool)
+    (hP : ∀ o ∈ live, P o) (hu : UniqueIds q) (hr : Resolvable P q) :
+    Resolvable P (readdR a live q l) ∧ UniqueIds (readdR a live q l) := by
+  induction l generalizing q with
+  | nil => exact ⟨hr, hu⟩
+  | cons t l ih =>
+    have h1 := resolvable_readdOneR (a := a) (live := live) t hP hu hr
+    exact ih _ h1.2 h1.1
+
+theorem uniqueIds_of_sub {q p : Pool} (hs : Sub q p) (hu : UniqueIds p) : UniqueIds q := by
+  intro x hx y hy hid
+  obtain ⟨x0, hx0, i1, _, _, _, i5⟩ := hs x hx
+  obtain ⟨y0, hy0, j1, _, _, _, j5⟩ := hs y hy
+  rw [i5, j5]
+  exact hu x0 hx0 y0 hy0 (by rw [← i1, ← j1]; exact hid)
+
 /-! ### one turn of `readd_detached_tx`: the refusal model of `Model/Reorg.lean` is exact without cell-ref parents -/
 
-theorem readdOneR_eq_readdOne (a : Args) (live : List Nat) (q : Pool) (t : CTx)
-    (hc : cellRefParents q (entryOf a t) = []) : readdOneR a live q t = readdOne a live q t := by
+theorem readdOneR_eq_readdOne_of_no_evictable (a : Args) (live : List Nat) (q : Pool) (t : CTx)
+    (hc : evictableParents q (entryOf a t) = []) : readdOneR a live q t = readdOne a live q t := by
   unfold readdOneR readdOne
   split
   · by_cases hid : hasId q t.id = true
@@ -99,11 +326,15 @@ theorem readdOneR_eq_readdOne (a : Args) (live : List Nat) (q : Pool) (t : CTx)
       have hid' : hasId q (entryOf a t).id = false := hid0
       simp only [hid, Bool.false_eq_true, if_false]
       by_cases hlim : (ancestorsOf q (linkParentsOf q t)).length + 1 > a.maxAnc
-      · rw [addEntry_over_limit_no_cell_ref _ _ _ _ (by rw [linkParentsE_entryOf]; omega) hc]
+      · rw [addEntry_over_limit_no_evictable _ _ _ _ (by rw [linkParentsE_entryOf]; omega) hc]
         simp [hlim]
       · rw [addEntry_within_limit _ _ _ _ hid' (by rw [linkParentsE_entryOf]; omega)]
         simp [hlim]
   · rfl
+
+theorem readdOneR_eq_readdOne (a : Args) (live : List Nat) (q : Pool) (t : CTx)
+    (hc : cellRefParents q (entryOf a t) = []) : readdOneR a live q t = readdOne a live q t :=
+  readdOneR_eq_readdOne_of_no_evictable a live q t (evictableParents_nil_of_cellRefParents_nil hc)
 
 theorem readdOneR_prov (a : Args) (live : List Nat) (q : Pool) (t : CTx) {e' : PEnt} (h : e' ∈ readdOneR a live q t) :
     e' ∈ q ∨ (resolves q a live t = true ∧ t.ok = true ∧ e' = entryOf a t) := by
@@ -271,5 +502,55 @@ theorem foldl_detachProposalR_eq_of_pending (m : Nat) (pref : List Nat) (l : Lis
     have h1 := detachProposalR_eq_of_pending m pref p x (h x (List.mem_cons_self ..))
     simp only [List.foldl_cons, h1.1, h1.2]
     exact ih (fun id hid => h id (List.mem_cons_of_mem _ hid))
+
+/-! ### stage = window through the real `remove_by_detached_proposal` -/
+
+theorem StageInv.mono {a : Args} {done : List Nat} {q q' : Pool} (hs : ∀ y ∈ q', y ∈ q) (h : StageInv a done q) :
+    StageInv a done q' :=
+  ⟨fun x hx y hy => h.same x (hs x hx) y (hs y hy), fun x hx => h.le2 x (hs x hx),
+   fun x hx => h.prop x (hs x hx), fun x hx => h.done0 x (hs x hx)⟩
+
+/-- every entry the real `remove_by_detached_proposal` leaves is an entry of the optimistic one (which re-adds
+    everything): the real one only drops more -/
+theorem mem_detachProposal_of_mem_detachProposalR (m : Nat) (pref : List Nat) (p : Pool) (id : Nat) {e' : PEnt}
+    (h : e' ∈ detachProposalR m pref p id) : e' ∈ detachProposal p id := by
+  unfold detachProposalR at h
+  unfold detachProposal
+  split at h
+  · rename_i e hf
+    simp only [hf]
+    split at h
+    · rename_i hs; simp only [hs, if_true]; exact h
+    · rename_i hs
+      simp only [hs]
+      rcases mem_foldl_addEntry _ _ _ _ h with h1 | ⟨x, hx, rfl⟩
+      · obtain ⟨hp, hng⟩ := mem_removeWithDesc.mp h1
+        refine List.mem_map.mpr ⟨e', hp, ?_⟩
+        unfold Gone at hng
+        have h1 : (e'.id == id) = false := by simpa using fun h => hng (Or.inl h)
+        have h2 : (descOf p id).contains e'.id = false := by simpa using fun h => hng (Or.inr h)
+        have hc : (e'.id == id || (descOf p id).contains e'.id) = false := by rw [h1, h2]; rfl
+        rw [hc]; simp
+      · obtain ⟨hp, hg⟩ := mem_detachedGroup hx
+        refine List.mem_map.mpr ⟨x, hp, ?_⟩
+        unfold Gone at hg
+        have hc : (x.id == id || (descOf p id).contains x.id) = true := by
+          rcases hg with hg | hg
+          · simp [hg]
+          · have : (descOf p id).contains x.id = true := by simpa using hg
+            rw [this]; simp
+        rw [if_pos hc]
+  · rename_i hf
+    simp only [hf]; exact h
+
+theorem stageInv_foldl_detachProposalR {a : Args} (m : Nat) (pref : List Nat) (l : List Nat) (done : List Nat) (q : Pool)
+    (h : StageInv a done q) : StageInv a (l.reverse ++ done) (l.foldl (detachProposalR m pref) q) := by
+  induction l generalizing done q with
+  | nil => simpa using h
+  | cons id ids ih =>
+    simp only [List.foldl_cons, List.reverse_cons, List.append_assoc, List.singleton_append]
+    obtain ⟨c, hc1, hc2⟩ := detachProposal_spec id h.same
+    have h1 : StageInv a (id :: done) (detachProposal q id) := by rw [hc1]; exact stageInv_resetBy c id h hc2
+    exact ih (id :: done) _ (h1.mono fun y hy => mem_detachProposal_of_mem_detachProposalR m pref q id hy)
 
 end CkbVerif.Reorg
